@@ -407,8 +407,11 @@ fn handle_item(
             handle_body(body, &mut dest, scope, file_context)?;
         }
         Item::Comment(c) => {
-            if !scope.get_format().is_compressed() {
-                dest.push_comment(c.evaluate(scope)?.take_value().into());
+            // In compressed style, only `/*!` comments are kept.
+            let compressed = scope.get_format().is_compressed();
+            let text = c.evaluate(scope)?.take_value();
+            if !compressed || text.starts_with('!') {
+                dest.push_comment(text.into());
             }
         }
         Item::None => (),
